@@ -439,6 +439,14 @@ def split_equations_iter(model: str) -> Iterator[str]:
             # Reset the buffer to collect another equation
             buffer = []
 
+    # If a verbatim block is still open at this point, its closing fence is
+    # missing (and everything after the opening fence would otherwise be lost)
+    if not complete_verbatim_block:
+        raise ParserError(
+            'Found an opening fence (```) for a block of verbatim code '
+            'with no matching closing fence: ' + '\n'.join(buffer)
+        )
+
     # If `unmatched_parentheses` is non-zero at this point, there must have
     # been an error in the input script's syntax. Throw an error
     if unmatched_parentheses != 0:
